@@ -2,6 +2,7 @@
 # Validates every seed under $1 (default /tmp/seeds): patch applies, tree builds, the 405 tests pass with it,
 # the demo fails with it and passes without. Validated seeds are copied to /verif/seeded/<id>-<k>/.
 ROOT=${1:-/tmp/seeds}
+OFFSET=${2:-0}   # added to the patch number when naming the stored seed (round 2: 3)
 export GOFLAGS=-mod=mod GOPROXY=off GOSUMDB=off GOTOOLCHAIN=local; unset GOWORK
 WT=/tmp/scratch/valwt
 git -C /repo worktree remove --force $WT 2>/dev/null
@@ -29,7 +30,7 @@ for d in $ROOT/C*/; do
     if [ $clean -eq 0 ] && [ $suite -eq 0 ] && [ $mut -ne 0 ]; then verdict=OK; fi
     echo "$id-$k: demo-on-clean=$clean suite-with-patch=$suite demo-with-patch=$mut => $verdict"
     if [ $verdict = OK ]; then
-      dst=/verif/seeded/$id-$k; mkdir -p $dst
+      dst=/verif/seeded/$id-$((k+OFFSET)); mkdir -p $dst
       cp $p $dst/patch.diff; cp $demo $dst/demo_test.go
       python3 - "$meta" "$dst/meta.json" "$id" "$k" "$place" <<'PY'
 import json,sys
